@@ -204,10 +204,12 @@ _ADDED = {
  "C13": " Tag sets of 10 / 11 / 12 / 25 tags; plain handles shared by all goroutines and a hammer phase of 120 000 distinct values through one handle (duplicates counted per destination); a first destination nobody listens on.",
  "C15": " A destination that stops listening (sends are refused now and then, nothing arrives): the buffer is still empty after every Flush.",
  "C16": " Every bucket of a histogram is charged for its own range tag (tags of different lengths).",
- "C17": " Duration specifications with a negative and a zero bound; Register* calls, label-name collisions, concurrent first use.",
- "C18": " Bounds of a minute and more; one reporter used by several goroutines at once.",
+ "C17": " Duration specifications with a negative and a zero bound; Register* calls, label-name collisions, concurrent first use; bursts of up to 200 000 samples for one bucket in one pass.",
+ "C18": " Bounds of a minute and more; one reporter used by several goroutines at once; a client that answers some calls with an error.",
  "C19": " A multi reporter among the children of a multi reporter; concurrent callers.",
- "C20": " A value set and a duration set with the same numbers under one root.",
+ "C20": " A value set and a duration set with the same numbers under one root; a longer set created before its prefix when the extra bound contributes nothing to the cache identity; the buckets of a histogram are allocated in ascending order.",
+ "C10": " The clock is stepped back between Start and Stop; typed-nil error values; with both reporters configured timers go through the cached handle.",
+ "C06": " A root without tags whose caller keeps dirtying the map it passed to Tagged.",
 }
 for _k, _v in _ADDED.items():
     CHECKS[_k]["text"] = CHECKS[_k]["text"] + _v
